@@ -3,7 +3,7 @@
 import json, subprocess
 
 CLAIMED = {
- "C01": dict(cat="exploration", tech="runtime monitor on load()/verify_role outcomes; oracle = ground truth by construction over generated signature lists (exhaustive small scope + seeded random)",
+ "C01": dict(cat="exploration", tech="runtime monitor on load()/verify_role outcomes; oracle = ground truth by construction over generated signature lists (exhaustive small scope + seeded random); thorough re-runs the quick case list under valgrind memcheck (hostile signatures/keys reaching the native crypto library)",
     text="Forged signature lists (valid / duplicate-key / corrupted / other-content / other-role / unknown / listed-but-missing-key) at all 8 verification sites are pushed through the real RepositoryLoader::load and through direct Root/Delegations::verify_role calls; the oracle knows by construction how many distinct authorised keys validly signed. Exhaustive for lists up to length 2/3 (load level) and 4/5 (API level), sampled beyond; held on the executions listed in the evidence, nothing is proved.",
     note="Trusted: aws-lc-rs primitives; harness reference canonicaliser; bounds n,t<=4, list length<=5.", ref="§5 C01"),
  "C02": dict(cat="exploration", tech="runtime monitor on load() outcome, trusted root version and transport fetch log; oracle = reference chain walk over generator ground truth (set of acceptable outcomes)",
@@ -21,7 +21,7 @@ CLAIMED = {
  "C05": dict(cat="exploration", tech="runtime monitor on load() outcome and fetch log for cross-state file combinations; oracle by construction from the served bytes (version/digest/length relations)",
     text="Timestamp of state a, snapshot of b, targets of c, delegated role of d for all 81 combinations x 4 pin configurations x both consistent-snapshot settings; same-state byte variants (re-formatted, shuffled, extra unknown signature) against pins of the original bytes; delegated role missing from the snapshot; fetch-log rule for version-prefixed names.",
     note="For delegated roles only version equality and listing are required by the statement.", ref="§5 C05"),
- "C06": dict(cat="fault_enumeration", tech="runtime monitor on every item yielded by read_target over a fault-injecting in-memory transport; oracle = SHA-256/length of what the caller received vs the signed entry, bytes pulled from the transport",
+ "C06": dict(cat="fault_enumeration", tech="runtime monitor on every item yielded by read_target over a fault-injecting in-memory transport; oracle = SHA-256/length of what the caller received vs the signed entry, bytes pulled from the transport; thorough re-runs the quick case list under valgrind memcheck",
     text="Contents 0..64 KiB at role depth 0/1/2; for contents <= 256 B every bit flip, truncation point and error chunk index is enumerated, plus extensions, substitutions, endless streams, unlisted names; sampled positions and chunkings for large contents.",
     note="One loaded repository per worker and setting; faults applied per read.", ref="§5 C06"),
  "C07": dict(cat="exploration", tech="runtime monitor on load()/find_target/read_target for generated delegation trees; oracle = independent pre-order lookup with pruning, three-valued on ambiguous globs",
@@ -36,10 +36,10 @@ CLAIMED = {
  "C11": dict(cat="exploration", tech="differential runtime monitor: CanonicalFormatter output vs an independent reference canonicaliser + strict canonical-bytes parser (injectivity), exhaustive small scope + seeded random, library and olpc-cjson binary",
     text="Every key set of size <=3 over an 8-symbol alphabet (prefix pairs, escaped characters, characters below the quote, pre-composed and decomposed é) under every insertion order, random values to depth 4 over all ASCII incl. control characters with floats injected, each also with shuffled member order; the same through the olpc-cjson binary.",
     note="NFC known by construction only for the harness' atom alphabet.", ref="§5 C11"),
- "C12": dict(cat="exploration", tech="mutation-driven runtime monitor: every single-point mutation of each role's signed portion is served to the real client; oracle 'accepted => exposed content (Serialize view and typed accessors) == signed content', benign rewrites must stay acceptable, swapped roles must be refused",
+ "C12": dict(cat="exploration", tech="mutation-driven runtime monitor: every single-point mutation of each role's signed portion is served to the real client; oracle 'accepted => exposed content (Serialize view and typed accessors) == signed content', benign rewrites and respellings must stay acceptable, swapped roles must be refused; plus seeded compositions of 2-3 mutations; thorough re-runs the quick case list under valgrind memcheck",
     text="The single-point mutation space (scalar change x2, member delete/insert/duplicate-first/duplicate-last, array delete/duplicate/reorder/insert, type-tag swap) of six role documents carrying unknown members at every supported level is enumerated completely; plus benign rewrites, optional members a conforming signer may write, and role swaps under a shared key. Seven known findings (unknown members inside delegations / role entries, empty custom, same-type-tag swaps) are listed with exact signatures.",
     note="Identity judged on the canonical form; the roles map of root is not extended.", ref="§5 C12"),
- "C13": dict(cat="exploration", tech="runtime monitor on serde_json::from_slice::<Signed<Root|Targets>> and Key::key_id over mutated key tables; oracle: identifier = SHA-256 of the reference canonical form",
+ "C13": dict(cat="exploration", tech="runtime monitor on serde_json::from_slice::<Signed<Root|Targets>> and Key::key_id over mutated key tables; oracle: identifier = SHA-256 of the reference canonical form; thorough re-runs the quick case list under valgrind memcheck (hostile key material reaching the native key parsers)",
     text="Key tables of 1..4 keys of every type/encoding with 4 variants of unknown extra members, embedded in root and in delegations (two depths); ten identifier mutations at every position for tables up to 3 keys + seeded random tables; identifier stability across parse/serialise/parse and Key::from_str.",
     note="SHA-256 from aws-lc-rs.", ref="§5 C13"),
  "C16": dict(cat="exploration", tech="request-log and file-system monitor over four places (URLs, datastore, cache output, editor output) with a global injectivity map file name -> role name; role documents are handed out in request order so no encoding is assumed",
